@@ -280,7 +280,7 @@ def baseline_fd(case, ctx):
         fn = B.BASELINE_CODES[code]
         X0 = X.copy()
         out = fn(X)
-        ctx.check(isinstance(out, tuple) and len(out) == 2, ("native", code, "return_type"), got=repr(type(out)))
+        ctx.check(isinstance(out, (tuple, list)) and len(out) == 2, ("native", code, "return_type"), got=repr(type(out)))
         e, de = out
         ctx.equal_bits(X, X0, ("native", code, "input_modified"))
         ctx.check(e.shape == (n,) and de.shape == X.shape, ("native", code, "shape"))
